@@ -375,7 +375,7 @@ def titan_size(a: int, b: int, n: int, uploads: bool) -> bool:
     up = UploadSpy() if uploads else None
     p, t, loop = make(spy, None, up)
     v = (chr(a) if n >= 1 else "") + (chr(b) if n >= 2 else "")
-    p._handle_titan_url("titan://h/f;size=" + v)
+    p.data_received(mk(("titan://h/f;size=" + v).encode("ascii"), b"\r\n"))
     loop.run_ready()
     if not uploads:
         return V(_refused(p, t, loop, spy, up, b"50"))
